@@ -852,8 +852,16 @@ func (fr *Frame) copyBuiltin(ins ssa.Instruction, dst, src Val, st *State, reach
 		drow := fr.rd(st, comp, srt, dst.A)
 		srow := fr.rd(st, comp, srt, src.A)
 		na := fr.ctx.freshConst("copied", arrSort(sc.sort))
-		fr.ctx.assert(fmt.Sprintf("(forall ((i! Int)) (! (= (select %s i!) (ite (and (<= %s i!) (< i! (+ %s %s))) (select %s (+ (- i! %s) %s)) (select %s i!))) :pattern ((select %s i!))))",
-			na, dst.Off, dst.Off, n, srow, dst.Off, src.Off, drow, na), "copy")
+		// the source element is read in the form every other read takes (shift view for non-zero offsets), so that
+		// quantified facts about the source match it
+		var srcAt Term
+		if src.Off != "" && src.Off != "0" {
+			srcAt = sel(fr.v.shift(fr.ctx, srow, src.Off, sc.sort), sub("i!", dst.Off))
+		} else {
+			srcAt = sel(srow, sub("i!", dst.Off))
+		}
+		fr.ctx.assert(fmt.Sprintf("(forall ((i! Int)) (! (= (select %s i!) (ite (and (<= %s i!) (< i! (+ %s %s))) %s (select %s i!))) :pattern ((select %s i!))))",
+			na, dst.Off, dst.Off, n, srcAt, drow, na), "copy")
 		st = fr.wr(st, comp, srt, dst.A, na)
 	}
 	return Val{K: KInt, T: intT, A: n}, st
